@@ -174,7 +174,20 @@ func c05MakeKey(alg, enc, id string, r *vf.Rand, i int) *jKey {
 	case alg == "dir":
 		k = &jKey{Oct: r.Bytes(jCEKSize(enc))}
 	case strings.HasPrefix(alg, "PBES2"):
-		k = &jKey{Oct: r.Bytes(6 + r.Intn(20))}
+		// the password is an octet string: a third of them begin / end with octets that text handling would strip
+		// (UTF-8 BOM, white space, CR LF), or are longer than an HMAC block (64 / 128)
+		pw := r.Bytes(6 + r.Intn(20))
+		switch r.Intn(9) {
+		case 0:
+			pw = append([]byte{0xef, 0xbb, 0xbf}, pw...)
+		case 1:
+			pw = append([]byte{[]byte(" \t\n")[r.Intn(3)]}, pw...)
+		case 2:
+			pw = append(pw, []byte{'\n', ' ', '\r'}[r.Intn(3)])
+		case 3:
+			pw = r.Bytes([]int{65, 96, 128, 129}[r.Intn(4)])
+		}
+		k = &jKey{Oct: pw}
 	case jIsECDH(alg):
 		k = jNewECKey(vf.Pick(r, c05Curves), r.Bytes)
 	default:
